@@ -413,7 +413,7 @@ def _nothing_else(r, p, cg, fix):
             else:
                 r.fail("C20.nothing-else", kk, "had_violations is set outside the per-violation fix loop: an empty selection would still rewrite the file", fi.loc(n))
             continue
-        if fi.key == "vsg.rule_list:rule_list.fix" and true_store:
+        if fi.cls is not None and fi.cls.key == "vsg.rule_list:rule_list" and true_store:  # fix() or a helper method of it
             f = Facts(fi.node)
             conds = [c for c, pol in f.conds_at(n) if pol and c.endswith(".had_violations")]
             if conds:
